@@ -185,4 +185,7 @@ def run(ck: Check):
                          "axioms: " + (", ".join(axioms) or "none (all theorems closed under the global context)")],
                      assumptions=["element and attribute names in parser events are non-empty (XML names)",
                                   "one XmlMeta per class (C14's subject)", "the universe is closed (every referenced class has metadata)",
-                                  "libxml2's NAMESPACE/WAR_NS_URI complaint (namespace name is not a valid URI reference) is not a well-formedness error"])
+                                  "libxml2's NAMESPACE/WAR_NS_URI complaint (namespace name is not a valid URI reference) is not a well-formedness error",
+                                  "documents produced by the declared-encoding faults carry no ill-formedness verdict: libxml2 rejecting an encoding outside "
+                                  "its repertoire (ERR_UNSUPPORTED_ENCODING / ERR_INVALID_ENCODING) is a limit of the reference processor; those documents are "
+                                  "still checked for termination and for the exception type"])
